@@ -116,6 +116,22 @@ class Reply(object):
         self.kind, self.value, self.delay_ms, self.error, self.message = kind, value, delay_ms, error, message
 
 
+def close_loop(loop):
+    """release the self-pipe sockets of an instance's event loop (thousands of simulators run in one process)"""
+    if loop is None or loop.is_closed():
+        return
+    try:
+        for t in asyncio.all_tasks(loop):
+            t.cancel()
+        loop.run_until_complete(asyncio.sleep(0))
+    except BaseException:
+        pass
+    try:
+        loop.close()
+    except BaseException:
+        pass
+
+
 class Instance(object):
     def __init__(self, sim, ident, config):
         self.sim, self.ident, self.config = sim, ident, config
@@ -134,6 +150,7 @@ class Instance(object):
             (self.engine.asl_store, self.engine.executions, self.engine.execution_history) = self.sim.shared_stores
         self.dispatcher = EventDispatcher(self.engine, self.config)
         if self.dispatcher.name.endswith("_asyncio"):
+            close_loop(self.loop)
             loop = asyncio.new_event_loop()
             asyncio.set_event_loop(loop)
             self.loop = loop
@@ -206,6 +223,9 @@ class Sim(object):
         self._open_worker()
 
     def close(self):
+        for inst in self.instances:
+            close_loop(inst.loop)
+            inst.loop = None
         if self.tmpdir:
             import shutil
             shutil.rmtree(self.tmpdir, True)
